@@ -15,6 +15,7 @@ EXTENDS StreamSrv, VerifTrace
 VARIABLES l, ph, armed, on
 tvars == <<vars, l, ph, armed, on>>
 
+TraceDupOf == [d1 |-> "r1", d2 |-> "r2", d3 |-> "r3"]
 TraceCfgs == {[store |-> FALSE, json |-> FALSE, stateless |-> FALSE, prime |-> [s \in Sess |-> FALSE]]}
 
 ResetAll(e) ==
@@ -29,8 +30,8 @@ ResetAll(e) ==
   /\ tlock' = [s \in Sess |-> [t \in Streams |-> None]]
   /\ x' = [e2 \in Exch |-> NoExch]
   /\ recv' = [e2 \in Exch |-> <<>>]
-  /\ h' = [s \in Sess |-> [r \in Reqs |-> [pc |-> "none", n |-> 0, q |-> 0]]]
-  /\ wr' = [s \in Sess |-> [o \in Streams |-> NoWrite]]
+  /\ h' = [s \in Sess |-> [r \in Reqs |-> [pc |-> "none", n |-> 0, q |-> 0, b |-> 0]]]
+  /\ wr' = [s \in Sess |-> [o \in Origins |-> NoWrite]]
   /\ nsa' = [s \in Sess |-> 0]
   /\ issued' = [s \in Sess |-> [t \in Streams |-> {}]]
   /\ okEnd' = [e2 \in Exch |-> TRUE]
@@ -39,6 +40,7 @@ Same == UNCHANGED vars
 
 Tag(pl) == CASE pl.k = "prime" -> "prime"
              [] pl.k = "resp" -> pl.s \o "." \o pl.o \o ".resp"
+             [] pl.k = "bcast" -> pl.os \o "." \o pl.o \o ".b" \o ToString(pl.n)
              [] pl.k = "sreq" -> pl.s \o "." \o pl.o \o ".q" \o ToString(pl.n)
              [] OTHER -> pl.s \o "." \o pl.o \o ".n" \o ToString(pl.n)
 IdxTag(ev) == ToString(ev.idx) \o "|" \o Tag(ev.pl)
@@ -51,14 +53,19 @@ SnapOK(e) ==
        /\ sn.x \in Exch
        /\ sn.evs = [j \in 1..Len(recv[sn.x]) |-> IdxTag(recv[sn.x][j])]
        /\ sn.ended = (x[sn.x].pc = "done")
-       /\ sn.status # 0 => sn.status = x[sn.x].status
+       \* (a replay held in its first Write has already sent its header; the specification holds it earlier
+       \* in the same critical section)
+       /\ (sn.status # 0 /\ ~x[sn.x].held) => sn.status = x[sn.x].status
 
 Armed(k) == k \in armed /\ cfg.store
 
 \* the environment action named by a step line
 EnvStep(e) ==
   CASE ~e.applied -> Same /\ armed' = armed
-    [] e.op = "post" -> Post(e.a1, e.a2) /\ armed' = armed
+    [] e.op = "post" -> PostStart(e.a1, e.a2, Armed(<<"O", PX(e.a1, e.a2)>>)) /\ armed' = armed \ {<<"O", PX(e.a1, e.a2)>>}
+    [] e.op = "upd"  -> HBcast(e.a1, e.a2) /\ armed' = armed
+    [] e.op = "gateO" -> Same /\ armed' = armed \cup {<<"O", e.a1>>}
+    [] e.op = "gateW" -> Same /\ armed' = armed \cup {<<"F", e.a1>>}   \* held in the first Write of the replay: same critical section
     [] e.op = "emit" -> HEmit(e.a1, e.a2, Armed(<<"A", e.a1, e.a2>>)) /\ armed' = armed \ {<<"A", e.a1, e.a2>>}
     [] e.op = "sreq" -> HSreq(e.a1, e.a2, Armed(<<"A", e.a1, e.a2>>)) /\ armed' = armed \ {<<"A", e.a1, e.a2>>}
     [] e.op = "ret"  -> HRet(e.a1, e.a2, Armed(<<"A", e.a1, e.a2>>)) /\ armed' = armed \ {<<"A", e.a1, e.a2>>}
